@@ -33,3 +33,52 @@ Theorem C09_setattr_model_refusal_is_code : forall (s : state) (h oh : N) (x : s
   rv_of (snd (step s (OSetAttr h oh tm))) = Some (C_SetAttributeValue.app (setattr_env s h oh x rest 1 (N.of_nat (length tm)))).
 Proof. exact setattr_model_refusal_is_code. Qed.
 Print Assumptions C09_setattr_model_refusal_is_code.
+
+(* ---- the functions that create key objects, regenerated whole in trace mode (gen/Gen_Keys.v, coq/P11/KeyGenFacts.v) ---- *)
+From SoftHSM Require Import Gen_Keys KeyGenSpec KeyGenFacts.
+
+(* the five secret-key generators, regenerated whole (gen/Gen_Keys.v), for every behaviour of the store and the crypto backend:
+   a call that fails after CreateObject ends by looking the object up, unregistering its handle, destroying it and handing
+   the caller CK_INVALID_HANDLE (in this order); a call that succeeds destroys and aborts nothing and has committed *)
+Theorem C09_generate_failure_undoes_the_object :
+  (forall (e : generateAES.env), let h := generateAES.CreateObject_sets_phKey e in let g := generateAES.handleManager_getObject e in
+     (fst (generateAES.app e) <> 0 -> In (T_CREATE, OBJECT_OP_GENERATE) (snd (generateAES.app e)) -> h <> 0 -> exists pre, snd (generateAES.app e) = cleanup OUT_phKey h g ++ pre) /\
+     (fst (generateAES.app e) <> 0 -> last_out OUT_phKey (snd (generateAES.app e)) = Some 0 \/ last_out OUT_phKey (snd (generateAES.app e)) = None) /\
+     (fst (generateAES.app e) = 0 -> (forall t v, In (t, v) (snd (generateAES.app e)) -> t <> T_HMD /\ t <> T_OBJD /\ t <> T_ABORT) /\
+        In (T_CREATE, OBJECT_OP_GENERATE) (snd (generateAES.app e)) /\ In (T_TXS, g h) (snd (generateAES.app e)) /\ In (T_COMMIT, g h) (snd (generateAES.app e)))) /\
+  (forall (e : generateDES.env), let h := generateDES.CreateObject_sets_phKey e in let g := generateDES.handleManager_getObject e in
+     (fst (generateDES.app e) <> 0 -> In (T_CREATE, OBJECT_OP_GENERATE) (snd (generateDES.app e)) -> h <> 0 -> exists pre, snd (generateDES.app e) = cleanup OUT_phKey h g ++ pre) /\
+     (fst (generateDES.app e) <> 0 -> last_out OUT_phKey (snd (generateDES.app e)) = Some 0 \/ last_out OUT_phKey (snd (generateDES.app e)) = None) /\
+     (fst (generateDES.app e) = 0 -> (forall t v, In (t, v) (snd (generateDES.app e)) -> t <> T_HMD /\ t <> T_OBJD /\ t <> T_ABORT) /\
+        In (T_CREATE, OBJECT_OP_GENERATE) (snd (generateDES.app e)) /\ In (T_TXS, g h) (snd (generateDES.app e)) /\ In (T_COMMIT, g h) (snd (generateDES.app e)))) /\
+  (forall (e : generateDES2.env), let h := generateDES2.CreateObject_sets_phKey e in let g := generateDES2.handleManager_getObject e in
+     (fst (generateDES2.app e) <> 0 -> In (T_CREATE, OBJECT_OP_GENERATE) (snd (generateDES2.app e)) -> h <> 0 -> exists pre, snd (generateDES2.app e) = cleanup OUT_phKey h g ++ pre) /\
+     (fst (generateDES2.app e) <> 0 -> last_out OUT_phKey (snd (generateDES2.app e)) = Some 0 \/ last_out OUT_phKey (snd (generateDES2.app e)) = None) /\
+     (fst (generateDES2.app e) = 0 -> (forall t v, In (t, v) (snd (generateDES2.app e)) -> t <> T_HMD /\ t <> T_OBJD /\ t <> T_ABORT) /\
+        In (T_CREATE, OBJECT_OP_GENERATE) (snd (generateDES2.app e)) /\ In (T_TXS, g h) (snd (generateDES2.app e)) /\ In (T_COMMIT, g h) (snd (generateDES2.app e)))) /\
+  (forall (e : generateDES3.env), let h := generateDES3.CreateObject_sets_phKey e in let g := generateDES3.handleManager_getObject e in
+     (fst (generateDES3.app e) <> 0 -> In (T_CREATE, OBJECT_OP_GENERATE) (snd (generateDES3.app e)) -> h <> 0 -> exists pre, snd (generateDES3.app e) = cleanup OUT_phKey h g ++ pre) /\
+     (fst (generateDES3.app e) <> 0 -> last_out OUT_phKey (snd (generateDES3.app e)) = Some 0 \/ last_out OUT_phKey (snd (generateDES3.app e)) = None) /\
+     (fst (generateDES3.app e) = 0 -> (forall t v, In (t, v) (snd (generateDES3.app e)) -> t <> T_HMD /\ t <> T_OBJD /\ t <> T_ABORT) /\
+        In (T_CREATE, OBJECT_OP_GENERATE) (snd (generateDES3.app e)) /\ In (T_TXS, g h) (snd (generateDES3.app e)) /\ In (T_COMMIT, g h) (snd (generateDES3.app e)))) /\
+  (forall (e : generateGeneric.env), let h := generateGeneric.CreateObject_sets_phKey e in let g := generateGeneric.handleManager_getObject e in
+     (fst (generateGeneric.app e) <> 0 -> In (T_CREATE, OBJECT_OP_GENERATE) (snd (generateGeneric.app e)) -> h <> 0 -> exists pre, snd (generateGeneric.app e) = cleanup OUT_phKey h g ++ pre) /\
+     (fst (generateGeneric.app e) <> 0 -> last_out OUT_phKey (snd (generateGeneric.app e)) = Some 0 \/ last_out OUT_phKey (snd (generateGeneric.app e)) = None) /\
+     (fst (generateGeneric.app e) = 0 -> (forall t v, In (t, v) (snd (generateGeneric.app e)) -> t <> T_HMD /\ t <> T_OBJD /\ t <> T_ABORT) /\
+        In (T_CREATE, OBJECT_OP_GENERATE) (snd (generateGeneric.app e)) /\ In (T_TXS, g h) (snd (generateGeneric.app e)) /\ In (T_COMMIT, g h) (snd (generateGeneric.app e)))).
+Proof. exact generated_failure_undoes_success_commits. Qed.
+Print Assumptions C09_generate_failure_undoes_the_object.
+
+(* C_UnwrapKey regenerated whole (gen/Gen_Keys.v), for every behaviour of the store and the crypto backend: a call that fails after
+   CreateObject ends by looking the object up, unregistering its handle, destroying it and handing the caller CK_INVALID_HANDLE;
+   a call that succeeds destroys and aborts nothing and has committed; only the handle / object just created are ever touched *)
+Theorem C09_unwrap_failure_undoes_the_object : forall (e : C_UnwrapKey.env),
+  let h := C_UnwrapKey.CreateObject_sets_hKey e in let g := C_UnwrapKey.handleManager_getObject e in
+  (fst (C_UnwrapKey.app e) <> 0 -> In (T_CREATE, OBJECT_OP_UNWRAP) (snd (C_UnwrapKey.app e)) -> h <> 0 -> exists pre, snd (C_UnwrapKey.app e) = cleanup OUT_hKey h g ++ pre) /\
+  (fst (C_UnwrapKey.app e) <> 0 -> last_out OUT_hKey (snd (C_UnwrapKey.app e)) = Some 0 \/ last_out OUT_hKey (snd (C_UnwrapKey.app e)) = None) /\
+  (fst (C_UnwrapKey.app e) = 0 -> (forall t v, In (t, v) (snd (C_UnwrapKey.app e)) -> t <> T_HMD /\ t <> T_OBJD /\ t <> T_ABORT) /\
+     In (T_CREATE, OBJECT_OP_UNWRAP) (snd (C_UnwrapKey.app e)) /\ In (T_TXS, g h) (snd (C_UnwrapKey.app e)) /\ In (T_COMMIT, g h) (snd (C_UnwrapKey.app e))) /\
+  (forall x, In (T_HMD, x) (snd (C_UnwrapKey.app e)) -> x = h) /\
+  (forall o, In (T_OBJD, o) (snd (C_UnwrapKey.app e)) -> o = g h).
+Proof. exact unwrap_failure_undoes_success_commits. Qed.
+Print Assumptions C09_unwrap_failure_undoes_the_object.
